@@ -132,8 +132,8 @@ def run_property(pid, tier, seed, obligations, meta, jobs=None):
     errors = []
     for r in results:
         if r["status"] == "refuted":
-            k = next((k for k in known if k.get("obligation") == r["name"]
-                      or (k.get("obligation_prefix") and r["name"].startswith(k["obligation_prefix"]))), None)
+            # exact obligation names only: a finding never hides another obligation of the same group
+            k = next((k for k in known if k.get("obligation") == r["name"] or r["name"] in k.get("obligations", ())), None)
             if k is not None:
                 known_hits.append((k, r))
             else:
